@@ -64,6 +64,9 @@ pub struct GenCfg {
     pub comments: bool,
     /// comments also inside inline types (not compared; acceptance only)
     pub deep_comments: bool,
+    /// one comment line in eight ends in white space (a Markdown line break, a tab, U+3000, U+00A0): descriptions
+    /// built with the constructors may carry such texts, and what is rendered must come back as it was
+    pub trailing_blanks: bool,
     /// allow a reference to a custom type defined in the same interface
     pub custom_refs: bool,
 }
@@ -154,12 +157,24 @@ pub fn comment_text(rng: &mut Rng) -> String {
     (0..n).map(|_| *rng.pick(WORDS)).collect::<Vec<_>>().join(" ")
 }
 
+thread_local! {
+    static TRAILING_BLANKS: std::cell::Cell<bool> = const { std::cell::Cell::new(false) };
+}
+
 fn comments(rng: &mut Rng, on: bool) -> Vec<String> {
     if !on || !rng.chance(1, 3) {
         return vec![];
     }
     let k = if rng.chance(1, 10) { rng.range(3, 8) } else { rng.range(1, 2) };
-    (0..k).map(|_| comment_text(rng)).collect()
+    (0..k)
+        .map(|_| {
+            let mut t = comment_text(rng);
+            if TRAILING_BLANKS.with(|c| c.get()) && !t.is_empty() && rng.chance(1, 8) {
+                t.push_str(*rng.pick(&["  ", " ", "\t", "\u{3000}", " \u{a0}", " \t "]));
+            }
+            t
+        })
+        .collect()
 }
 
 fn unique(rng: &mut Rng, used: &mut Vec<String>, f: fn(&mut Rng) -> String) -> String {
@@ -227,6 +242,7 @@ fn gen_fields(rng: &mut Rng, depth: usize, cfg: &GenCfg, customs: &[String], n: 
 }
 
 pub fn gen_iface(rng: &mut Rng, cfg: &GenCfg) -> GIface {
+    TRAILING_BLANKS.with(|c| c.set(cfg.trailing_blanks));
     let n = rng.range(0, cfg.max_members);
     let mut names = vec![];
     let kinds: Vec<usize> = (0..n).map(|_| rng.below(3)).collect();
